@@ -161,6 +161,26 @@ func TestVerifC11(t *testing.T) {
 					if a.md(mg2).Member().Equals(mds[0].Member()) || a.md(mg2).Device().Equals(mds[0].Device()) {
 						rep.Violate("C11/collision/member", "one account uses the same member or device key in two multi-member groups", i)
 					}
+					// one public key met in two roles on a running device - as a contact's account key and as the identifier
+					// of a multi-member group - in either order: every device of the account, and the same device after a
+					// restart, must still derive the same member key and the same contact group
+					{
+						same := &protocoltypes.Group{PublicKey: rawPK(bpk), Secret: mg.Secret, SecretSig: mg.SecretSig, GroupType: protocoltypes.GroupType_GroupTypeMultiMember}
+						d1, d2 := a.newSiblingDevice("R1"), a.newSiblingDevice("R2")
+						cg1, e1 := d1.ss.GetGroupForContact(bpk) // contact first ...
+						md1, e2 := d1.ss.GetOwnMemberDeviceForGroup(same)
+						md2, e3 := d2.ss.GetOwnMemberDeviceForGroup(same) // ... group first
+						cg2, e4 := d2.ss.GetGroupForContact(bpk)
+						md3, e5 := d1.clone().ss.GetOwnMemberDeviceForGroup(same) // the first device after a restart
+						rep.Case(fmt.Sprintf("pair-%d-same-key-two-roles", i))
+						if e1 != nil || e2 != nil || e3 != nil || e4 != nil || e5 != nil {
+							rep.Violate("C11/same-key-two-roles/error", fmt.Sprintf("%v %v %v %v %v", e1, e2, e3, e4, e5), i)
+						} else if !md1.Member().Equals(md2.Member()) || !md1.Member().Equals(md3.Member()) {
+							rep.Violate("C11/member-key-differs", "a key that is both a contact's key and a group identifier: the member key depends on the order in which the device met the two roles (or changes with a restart)", i)
+						} else if fpOf(cg1) != fpOf(gab) || fpOf(cg2) != fpOf(gab) {
+							rep.Violate("C11/asymmetric-contact-group", "a key that is both a contact's key and a group identifier: the contact group depends on the order in which the device met the two roles", i)
+						}
+					}
 					// contact/account groups: member = account key, device = account-level device key
 					if !a.memberPK(gab).Equals(apk) || !a.memberPK(ga).Equals(apk) {
 						rep.Violate("C11/contact-member-key", "member key in account/contact group is not the account key", i)
